@@ -23,7 +23,9 @@
    record ([macro_offset]).
    Not modelled: recursion limit / depth accounting, fuel, spans, loop recursion (FastRecurse,
    current_recursion_jump), loop.depth / previtem / nextitem / cycle / changed. *)
-From MJ Require Import Common.Base Lang.Syntax Lang.Meta Lang.Interp C04.Model L2.Instr.
+From MJ Require Import Common.Base Lang.Syntax Lang.Meta Lang.Interp.
+From MJ Require Import C04.Model.
+From MJ Require Import L2.Instr.
 
 Record callframe := mkCall {
   k_pc : nat; k_stk : list value; k_env : list frame; k_out : list (list Z);
